@@ -156,22 +156,39 @@ impl Cmp<'_> {
                 if let Some(d) = first_debug_diff(&a.events, &b.events) {
                     self.violation(&format!("{what}_events_differ"), format!("native vs wasm: {d}"), what);
                 }
-                let sa: Vec<_> = a.skipped.iter().map(|(id, e)| (format!("{id:x}"), err_name(e))).collect();
-                let sb: Vec<_> = b.skipped.iter().map(|(id, e)| (format!("{id:x}"), err_name(e))).collect();
-                if sa != sb {
-                    let i = sa.iter().zip(sb.iter()).position(|(x, y)| x != y);
+                // the skipped *ids* must agree. Error variants are compared too, except for one pair that
+                // differs by design: transactions handed in as already-checked cross the WASM boundary as plain
+                // transactions (instance.rs converts them), so an expiration that passed since the pool's check is
+                // reported by the full re-check (InvalidTransaction) instead of the executor's own TransactionExpired.
+                let norm = |e: &ExecutorError| {
+                    let n = err_name(e);
+                    if n == "TransactionExpired" || n == "InvalidTransaction.Validity.TransactionExpiration" {
+                        "expired".to_string()
+                    } else {
+                        n
+                    }
+                };
+                let ia: Vec<_> = a.skipped.iter().map(|(id, _)| format!("{id:x}")).collect();
+                let ib: Vec<_> = b.skipped.iter().map(|(id, _)| format!("{id:x}")).collect();
+                if ia != ib {
                     self.violation(
-                        &format!("{what}_skipped_lists_differ"),
-                        format!(
-                            "native {} skipped, wasm {}; first difference {:?}: {:?} vs {:?}",
-                            sa.len(),
-                            sb.len(),
-                            i,
-                            i.map(|i| &sa[i]),
-                            i.map(|i| &sb[i])
-                        ),
+                        &format!("{what}_skipped_ids_differ"),
+                        format!("native skipped {ia:?}, wasm skipped {ib:?}"),
                         what,
                     );
+                } else {
+                    for ((id, ea), (_, eb)) in a.skipped.iter().zip(b.skipped.iter()) {
+                        if err_name(ea) != err_name(eb) {
+                            self.report.count(&format!("c07.skip_variant_pair.{}|{}", err_name(ea), err_name(eb)));
+                        }
+                        if norm(ea) != norm(eb) {
+                            self.violation(
+                                &format!("{what}_skipped_lists_differ"),
+                                format!("tx {id:x}: native {ea:?} vs wasm {eb:?}"),
+                                what,
+                            );
+                        }
+                    }
                 }
                 for (_, e) in &a.skipped {
                     self.report.count(&format!("c07.skip_reason.{}", err_name(e)));
